@@ -570,6 +570,14 @@ def tally(ctx, ops, model, nontrivial=lambda op, ml: True):
 # They are matched exactly like `finding:` lines of /verif/known_findings.txt (printed as
 # KNOWN-FINDING, recorded in the evidence, not counted) until they are moved there or fixed.
 LOCAL_FINDINGS = [
+    ("C16", "amrdensitygrid:amrdensitygrid-absorbed-in-boundary-cell-reported-as-escaped",
+     "AMRDensityGrid::interact advances current_cell to the neighbour before it knows whether the photon is absorbed in the "
+     "present cell: a photon absorbed inside the box in a cell whose exit wall is an open box face gets current_cell == nullptr "
+     "and end() is returned (reported escaped, lost) — unit box, 2x2x2 cells, photon (0.75,0.75,0.75) direction +x, tau 0.1"),
+    ("C16", "amrdensitygrid:amrdensitygrid-periodic-wrap-enters-wrong-child-of-refined-neighbour",
+     "AMRDensityGrid::get_wall_intersection descends into a refined neighbour across a periodic boundary with the UNWRAPPED "
+     "wall position (get_child(next_wall)): the photon enters the child on the far side, path lengths are deposited in the "
+     "wrong cell and the returned cell does not contain the final position"),
     ("C16", "cartesian:locate-index-out-of-range",
      "CartesianDensityGrid::get_cell_indices: for a position inside the half-open box but within one ulp (at box scale) of a "
      "top face, (p-anchor)*inverse_cellside rounds up to ncell: get_cell_index returns the long index of a different cell "
